@@ -257,3 +257,33 @@ def precedes(root, a, b):
                 continue
             return False
     return True
+
+
+def in_return_position(body_root, pm, n):
+    """True when the value of expression n is the value the *function* returns: operand of a `return`, or the function's tail expression,
+    through blocks / if branches / match arms — not the value of a block under `?`, in a `let`, an argument, a condition."""
+    cur = n
+    while id(cur) in pm:
+        par = pm[id(cur)]
+        k = par.get("k")
+        if k == "Ret":
+            return True
+        if k == "Block":
+            if par.get("expr") is not cur:
+                return False
+        elif k == "If":
+            if cur is par.get("c"):
+                return False
+        elif k == "Match":
+            if cur is par.get("e"):
+                return False
+        elif k in ("ExprS", "Semi"):
+            return False
+        elif k is None and "body" in par and "pat" in par:
+            pass                     # a match arm record {pat, guard, body}
+        elif k in ("Paren", "DropTemps", "Use"):
+            pass
+        else:
+            return False
+        cur = par
+    return cur is body_root
